@@ -43,17 +43,18 @@ func (h *c11shHook) Func(ctx sim.HookCtx) { h.f(ctx) }
 type c11shCfg struct {
 	cu, at, tlb, l1i, l1s, l1v, l2          int
 	cin, cdrv, cdma, ccache, ccu, cat, ctlb int
+	disp                                    int // stand-in dispatchers (kernel launches)
 }
 
 func (g c11shCfg) caches() int { return g.l1i + g.l1s + g.l1v + g.l2 }
 
 func (g c11shCfg) head() string {
-	return fmt.Sprintf("c11 cps cu=%d at=%d tlb=%d caches=%d l1i=%d l1s=%d l1v=%d cin=%d cdrv=%d cdma=%d ccache=%d ccu=%d cat=%d ctlb=%d",
-		g.cu, g.at, g.tlb, g.caches(), g.l1i, g.l1s, g.l1v, g.cin, g.cdrv, g.cdma, g.ccache, g.ccu, g.cat, g.ctlb)
+	return fmt.Sprintf("c11 cps cu=%d at=%d tlb=%d caches=%d l1i=%d l1s=%d l1v=%d cin=%d cdrv=%d cdma=%d ccache=%d ccu=%d cat=%d ctlb=%d disp=%d",
+		g.cu, g.at, g.tlb, g.caches(), g.l1i, g.l1s, g.l1v, g.cin, g.cdrv, g.cdma, g.ccache, g.ccu, g.cat, g.ctlb, g.disp)
 }
 
 func c11shDefaultCfg() c11shCfg {
-	return c11shCfg{1, 1, 1, 1, 1, 1, 1, 4096, 4096, 4096, 4096, 4096, 4096, 4096}
+	return c11shCfg{1, 1, 1, 1, 1, 1, 1, 4096, 4096, 4096, 4096, 4096, 4096, 4096, 1}
 }
 
 type c11shEnv struct {
@@ -75,6 +76,10 @@ type c11shEnv struct {
 	kinds    []string
 	byAddr   map[uint64]int
 	shoots   int // ShootDownCommands the driver port accepted
+	disp     []*cp.VerifDispatcherC02
+	launches []*protocol.LaunchKernelReq // LaunchKernelReqs the driver port accepted
+	started  int                         // kernels handed to a dispatcher so far
+	invSent  int                         // kernel-start invalidation requests seen on ToCaches
 	atDma    []sim.Msg
 	atCaches []*cache.FlushReq
 	pend     [c11shN][]sim.Msg
@@ -93,6 +98,7 @@ type c11shEnv struct {
 	flushAnswered         int
 	nFlush                int
 	overlap               bool // a flush and a shootdown were pending at the same time
+	mix                   bool // a kernel launch request and a shootdown were pending at the same time
 	dropped               bool // an unchecked Send hit a full buffer
 	fails                 map[string]int
 }
@@ -163,6 +169,7 @@ func newC11shEnv(r *Run, g c11shCfg) *c11shEnv {
 	}
 	c.AddressTranslators = mk(c11shAT, "AT", g.at)
 	c.TLBs = mk(c11shTLB, "TLB", g.tlb)
+	e.disp = c.VerifInstallDispatchersC02(g.disp)
 	c.ToDriver.AcceptHook(&c11shHook{e.hookDrv})
 	c.ToDMA.AcceptHook(&c11shHook{e.hookDma})
 	c.ToCaches.AcceptHook(&c11shHook{e.hookCaches})
@@ -178,9 +185,14 @@ func newC11shEnv(r *Run, g c11shCfg) *c11shEnv {
 func (e *c11shEnv) pendingFlushes() int { return e.nFlush - e.flushAnswered }
 func (e *c11shEnv) pendingShoots() int  { return e.shoots - e.doneSent }
 
+func (e *c11shEnv) pendingLaunches() int { return len(e.launches) - e.startedNow() }
+
 func (e *c11shEnv) noteOverlap() {
 	if e.pendingFlushes() > 0 && e.pendingShoots() > 0 {
 		e.overlap = true
+	}
+	if e.pendingLaunches() > 0 && e.pendingShoots() > 0 {
+		e.mix = true
 	}
 }
 
@@ -266,7 +278,7 @@ func (e *c11shEnv) hookDrv(ctx sim.HookCtx) {
 		if e.doneSent > e.shoots {
 			e.fail("C11.cps.answered-twice", "%d ShootdownCompleteRsp for %d shootdown commands", e.doneSent, e.shoots)
 		}
-		if !e.overlap {
+		if !e.mix {
 			for cls := 0; cls < c11shN; cls++ {
 				if e.clsSent[cls]-e.clsAcked[cls] > 1 { // the acknowledgement being processed is retrieved after the Send
 					e.fail("C11.cps.shootdown-complete-early", "ShootdownCompleteRsp sent while %d requests to the %s are not acknowledged", e.clsSent[cls]-e.clsAcked[cls], c11shClsNames[cls])
@@ -345,10 +357,55 @@ func (e *c11shEnv) deliverShoot() string {
 	return "ok"
 }
 
+func (e *c11shEnv) busy() int {
+	n := 0
+	for _, d := range e.disp {
+		if d.Busy {
+			n++
+		}
+	}
+	return n
+}
+
+func (e *c11shEnv) startedNow() int {
+	n := 0
+	for _, d := range e.disp {
+		n += len(d.Started)
+	}
+	return n
+}
+
 func (e *c11shEnv) sig() string {
 	st := e.c.VerifCtrlStateC19()
-	return fmt.Sprintf("%d,%d,%d,%d,%s,%s", st.NumCUAck, st.NumAddrTranslationFlushAck, st.NumTLBAck, st.NumCacheACK,
-		b01(st.ShootDownInProcess), b01(st.HasFlushRequest))
+	_, inv, _ := e.c.VerifLaunchStateC02()
+	return fmt.Sprintf("%d,%d,%d,%d,%s,%s,%s,%d,%d", st.NumCUAck, st.NumAddrTranslationFlushAck, st.NumTLBAck, st.NumCacheACK,
+		b01(st.ShootDownInProcess), b01(st.HasFlushRequest), b01(inv), e.busy(), e.startedNow())
+}
+
+func (e *c11shEnv) deliverLaunch() string {
+	m := protocol.NewLaunchKernelReq(e.drv, e.c.ToDriver)
+	if e.c.ToDriver.Deliver(m) != nil {
+		return "full"
+	}
+	e.launches = append(e.launches, m)
+	e.noteOverlap()
+	e.r.Count("cps.req.k")
+	return "ok"
+}
+
+// the j-th busy dispatcher finishes its kernel
+func (e *c11shEnv) kernelDone(j int) string {
+	var b []*cp.VerifDispatcherC02
+	for _, d := range e.disp {
+		if d.Busy {
+			b = append(b, d)
+		}
+	}
+	if len(b) == 0 {
+		return "none"
+	}
+	b[j%len(b)].Busy = false
+	return "ok"
 }
 
 func (e *c11shEnv) tick() string {
@@ -459,6 +516,10 @@ func (e *c11shEnv) exec(t []string) string {
 		return e.deliverReq(t[0])
 	case "s":
 		return e.deliverShoot()
+	case "k":
+		return e.deliverLaunch()
+	case "kd":
+		return e.kernelDone(n)
 	case "F", "H", "D":
 		k := 0
 		for i := 0; i < n; i++ {
@@ -527,6 +588,8 @@ func (e *c11shEnv) exec(t []string) string {
 				continue
 			case q.InvalidateAllCachelines && q.DiscardInflight && q.PauseAfterFlushing:
 				l = append(l, "R"+strconv.Itoa(ix))
+			case q.InvalidateAllCachelines && !q.DiscardInflight && !q.PauseAfterFlushing:
+				l = append(l, "I"+strconv.Itoa(ix))
 			case !q.InvalidateAllCachelines && !q.DiscardInflight && !q.PauseAfterFlushing:
 				l = append(l, strconv.Itoa(ix))
 			default:
@@ -656,6 +719,10 @@ func (e *c11shEnv) drain(rng *Rng) {
 				progress = true
 			}
 		}
+		if e.busy() > 0 && e.c.ToDriver.PeekIncoming() != nil {
+			e.do("kd 0") // a running kernel ends: a waiting launch request finds a dispatcher
+			progress = true
+		}
 		o := e.do("t")
 		if strings.HasPrefix(o, "fault") {
 			break
@@ -677,15 +744,20 @@ func (e *c11shEnv) finish(rng *Rng, name string) {
 	if e.overlap {
 		e.r.Count("cps.overlap")
 	}
+	if e.mix {
+		e.r.Count("cps.launch-in-shootdown")
+	}
+	const known = "C11.cps.launch-in-shootdown"
+	knownText := "a LaunchKernelReq and a ShootDownCommand were pending at the same time: processLaunchKernelReq does not wait for shootDownInProcess, the acknowledgements of its kernel-start L1 invalidation are counted in numCacheACK and end the shootdown's cache phase before it began"
 	if e.fault != "" {
 		e.r.Count("cps.fault." + e.fault)
 		switch {
-		case e.fault == "nilderef" && e.overlap:
-			e.fail("C19.cp.flush-lost-in-shootdown", "%s: the CP panics with a nil dereference (processRegularCacheFlush with currFlushRequest == nil): a flush request and a shootdown overlapped, the flush's own acknowledgements ended the shootdown's cache phase; every request had been acknowledged honestly. Tokens: %s", name, strings.Join(e.out, " "))
+		case e.fault == "nilderef" && e.mix:
+			e.fail(known, "%s: the CP panics with a nil dereference (processRegularCacheFlush with currFlushRequest == nil): %s; every request had been acknowledged honestly. Tokens: %s", name, knownText, strings.Join(e.out, " "))
 		case e.fault == "cache_send" && e.cfg.ccache < 2*e.cfg.caches():
-			// flushCache's panic(err): ToCaches cannot hold one request per cache (cp_no_fault needs n <= ccache)
+			// flushCache's / invalidateCache's panic(err): ToCaches cannot hold one request per cache
 		default:
-			e.fail("C11.cps.panic", "%s: the CP panicked (%s) under an honest environment (overlap=%v)", name, e.fault, e.overlap)
+			e.fail("C11.cps.panic", "%s: the CP panicked (%s) under an honest environment (flush/shootdown overlap=%v, launch/shootdown overlap=%v)", name, e.fault, e.overlap, e.mix)
 		}
 		return
 	}
@@ -700,13 +772,10 @@ func (e *c11shEnv) finish(rng *Rng, name string) {
 		}
 		st := e.sig()
 		switch {
-		case e.kinds[i] == "f" && e.overlap:
-			e.fail("C19.cp.flush-lost-in-shootdown", "%s: flush request %d was accepted by the driver port but got %d answers; it overlapped a TLB shootdown; every sub-request was acknowledged (pending %d, buffered %d), the CP is quiet=%v with state [%s] (numCU,numAT,numTLB,numCacheACK,shootdown,currFlushRequest)", name, i, n, e.pendTotal(), e.outTotal(), quiet, st)
+		case e.mix:
+			e.fail(known, "%s: request %d (%s) was accepted by the driver port but got %d answers; %s; state [%s]", name, i, e.kinds[i], n, knownText, st)
 		case e.kinds[i] == "f":
-			e.fail("C11.cps.flush-lost", "%s: flush request %d was accepted by the driver port but got %d answers although no shootdown overlapped it; state [%s]", name, i, n, st)
-		case e.overlap && e.pendingFlushes() > 0:
-			// a copy behind a flush that is lost in a shootdown waits for ever: part of the same finding
-			e.fail("C19.cp.flush-lost-in-shootdown", "%s: copy request %d (%s) waits behind flush state that a TLB shootdown destroyed (%d flushes unanswered); state [%s]", name, i, e.kinds[i], e.pendingFlushes(), st)
+			e.fail("C11.cps.flush-lost", "%s: flush request %d was accepted by the driver port but got %d answers (a shootdown overlapped it: %v — since repair 0728adcb the flush waits for the shootdown and is answered afterwards); state [%s]", name, i, n, e.overlap, st)
 		default:
 			e.fail("C11.cps.copy-lost", "%s: copy request %d (%s) was accepted by the driver port but got %d answers (forwarded %d times); state [%s]", name, i, e.kinds[i], n, e.fwdCount[i], st)
 		}
@@ -714,13 +783,17 @@ func (e *c11shEnv) finish(rng *Rng, name string) {
 	}
 	e.r.Checked("cps.shootdown-answered")
 	if e.doneSent != e.shoots {
-		if e.overlap {
-			e.fail("C19.cp.flush-lost-in-shootdown", "%s: %d shootdown commands accepted, %d ShootdownCompleteRsp sent; a flush request overlapped; state [%s]", name, e.shoots, e.doneSent, e.sig())
+		if e.mix {
+			e.fail(known, "%s: %d shootdown commands accepted, %d ShootdownCompleteRsp sent; %s; state [%s]", name, e.shoots, e.doneSent, knownText, e.sig())
 		} else {
-			e.fail("C11.cps.shootdown-lost", "%s: %d shootdown commands accepted, %d ShootdownCompleteRsp sent, no flush overlapped; state [%s]", name, e.shoots, e.doneSent, e.sig())
+			e.fail("C11.cps.shootdown-lost", "%s: %d shootdown commands accepted, %d ShootdownCompleteRsp sent (flush overlapped: %v); state [%s]", name, e.shoots, e.doneSent, e.overlap, e.sig())
 		}
 	}
-	if !e.overlap {
+	e.r.Checked("cps.kernels-started")
+	if e.pendingLaunches() != 0 && !e.mix {
+		e.fail("C11.cps.kernel-never-started", "%s: %d of %d kernel launch requests were never handed to a dispatcher although every invalidation was acknowledged and every running kernel ended; state [%s]", name, e.pendingLaunches(), len(e.launches), e.sig())
+	}
+	if !e.mix {
 		e.r.Checked("cps.idle")
 		if st := e.sig(); !strings.HasPrefix(st, "0,0,0,0,0,") || !quiet {
 			e.fail("C11.cps.not-idle", "%s: everything was acknowledged and drained but the CP is not idle: state [%s] quiet=%v", name, st, quiet)
@@ -733,6 +806,7 @@ func (e *c11shEnv) finish(rng *Rng, name string) {
 func c11shRandCfg(rng *Rng) c11shCfg {
 	g := c11shDefaultCfg()
 	g.cu, g.at, g.tlb = rng.Range(1, 3), rng.Range(1, 3), rng.Range(1, 3)
+	g.disp = rng.Pick(1, 1, 2)
 	g.l1i, g.l1s, g.l1v, g.l2 = rng.Pick(0, 1, 1, 2), rng.Pick(0, 1, 1), rng.Pick(0, 1, 2), rng.Pick(0, 1, 1, 2)
 	if g.caches() == 0 {
 		g.l2 = 1
@@ -763,8 +837,21 @@ func c11shRandCfg(rng *Rng) c11shCfg {
 }
 
 // one random move of the environment
-func (e *c11shEnv) step(rng *Rng, serial bool, pf, pc, ps int) {
+func (e *c11shEnv) step(rng *Rng, serial bool, pf, pc, ps, pk int) {
 	x := rng.Intn(100)
+	if pk > 0 && rng.Chance(pk) {
+		// kernel launches: delivered only outside a shootdown when the scenario is serialised
+		if rng.Chance(60) {
+			if serial && e.pendingShoots() > 0 {
+				e.do("t")
+				return
+			}
+			e.do("k")
+		} else {
+			e.do(fmt.Sprintf("kd %d", rng.Intn(3)))
+		}
+		return
+	}
 	switch {
 	case x < pf:
 		if serial && e.pendingShoots() > 0 {
@@ -829,8 +916,9 @@ func c11shScenario(r *Run, rng *Rng) {
 		r.Count("cps.serial")
 	}
 	pf, pc, ps := rng.Pick(4, 8, 14), rng.Pick(5, 10, 18), rng.Pick(3, 6, 10)
+	pk := rng.Pick(0, 0, 6, 12)
 	for s := rng.Range(15, 90); s > 0 && e.fault == ""; s-- {
-		e.step(rng, serial, pf, pc, ps)
+		e.step(rng, serial, pf, pc, ps, pk)
 	}
 	name := "random scenario"
 	if serial {
@@ -861,16 +949,26 @@ func runC11Share(r *Run, rng *Rng, replay string) {
 		c11shScenario(r, rng)
 	}
 	g := c11shDefaultCfg()
-	// the two variants of C19's finding (the witnesses of cps_flush_answered_full_refuted)
-	// (1) the flush request is taken while the shootdown waits for the compute units
-	// (numCacheACK == 0): the flush's acknowledgements run processCacheFlushCausedByTLBShootdown,
-	// which clears currFlushRequest; the flush is never answered
-	c11shFixed(r, rng, g, "flush taken during the shootdown's CU phase", []string{"s", "t", "f", "t", "q"})
-	// (2) the shootdown is taken while the flush waits for the caches; the flush's own four
-	// acknowledgements end the shootdown's cache phase before it began, the shootdown's later
-	// acknowledgements find currFlushRequest == nil
-	c11shFixed(r, rng, g, "shootdown taken while a flush is in progress, the caches answer the flush first",
+	// the two variants of the REPAIRED finding C19-cp-flush-lost-in-shootdown (0728adcb; the witnesses of
+	// cps_flush_answered_before_fix_refuted): now the flush waits for the shootdown / the shootdown for the
+	// flush, everything is answered
+	// (1) the flush request arrives while the shootdown waits for the compute units
+	c11shFixed(r, rng, g, "flush delivered during the shootdown's CU phase", []string{"s", "t", "f", "t", "q"})
+	// (2) the shootdown arrives while the flush waits for the caches
+	c11shFixed(r, rng, g, "shootdown delivered while a flush is in progress, the caches answer the flush first",
 		[]string{"f", "t", "s", "t", "q", "xc 4", "a 0", "a 0", "a 0", "a 0", "t", "t", "t", "t", "q", "xl 1", "al 0", "t", "xr 1", "q"})
+	// the THIRD user of numCacheACK: the kernel-start invalidation of the L1S / L1V caches. Copies and a
+	// flush behind the launch request wait for it; its last acknowledgement answers nothing
+	c11shFixed(r, rng, g, "kernel launch on an idle GPU, a flush and a copy behind it",
+		[]string{"k", "f", "h", "t", "q", "xc 9", "a 1", "t", "q", "a 0", "t", "q", "xr 9", "t", "q", "t", "q"})
+	// a second kernel while the first is running starts without invalidation
+	c11shFixed(r, rng, g, "second kernel while the first runs", []string{"k", "t", "xc 9", "a 0", "a 0", "t", "t", "q", "k", "t", "q", "kd 0", "t", "q"})
+	// OPEN finding C11-cp-launch-in-shootdown: a launch request taken during the shootdown's CU phase
+	// (witness of cps_no_fault_full_refuted): TLB flush and ShootdownCompleteRsp go out before the CUs,
+	// translators and caches were flushed; the shootdown's reset acknowledgements end in a nil dereference
+	c11shFixed(r, rng, g, "kernel launch taken during the shootdown's CU phase",
+		[]string{"s", "t", "k", "t", "q", "xc 9", "a 0", "a 0", "t", "q", "t", "q", "xl 9", "al 0", "t", "q", "xu 9", "au 0", "t", "xa 9", "aa 0", "t", "q",
+			"xc 9", "a 0", "a 0", "a 0", "a 0", "t", "t", "t", "t"})
 	// serialised versions of the same requests: everything is answered
 	c11shFixed(r, rng, g, "shootdown, then flush and copies", []string{"s", "h", "t", "xu 1", "au 0", "t", "xa 1", "aa 0", "t", "q",
 		"xc 4", "a 3", "a 0", "a 1", "a 0", "T 4", "q", "xl 1", "al 0", "t", "xr 2", "f", "d", "t", "q"})
